@@ -2271,16 +2271,21 @@ func (vm *Thread) growValueStack() {
 	fpOffset := uintptr(vm.fpOffset())
 	spOffset := uintptr(vm.spOffset())
 
-	for i := range vm.callFrames {
+	for i := range vm.callStack() {
 		cf := &vm.callFrames[i]
-		offset := uintptr(vm.stackOffsetFromToRaw(oldStackPtr, cf.fp))
+		if cf.isNative {
+			// native frames store the name of the function in `fp`
+			continue
+		}
+		// offset of the frame from the beginning of the old stack
+		offset := uintptr(vm.stackOffsetFromToRaw(cf.fp, oldStackPtr))
 		cf.fp = vm.stackAddRaw(newStackPtr, offset)
 		for _, upvalue := range cf.upvalues {
 			if upvalue.IsClosed() {
 				continue
 			}
 
-			offset := vm.stackOffsetFromTo(&vm.stack[0], upvalue.slot)
+			offset := vm.stackOffsetFromTo(upvalue.slot, &vm.stack[0])
 			upvalue.slot = vm.stackAdd(&newStack[0], offset)
 		}
 	}
@@ -2290,7 +2295,7 @@ func (vm *Thread) growValueStack() {
 			continue
 		}
 
-		offset := vm.stackOffsetFromTo(&vm.stack[0], upvalue.slot)
+		offset := vm.stackOffsetFromTo(upvalue.slot, &vm.stack[0])
 		upvalue.slot = vm.stackAdd(&newStack[0], offset)
 	}
 
